@@ -2,7 +2,12 @@ import Driver.Loop
 import ElaVerif.Model.Crash
 open ElaVerif.Crash ElaVerif.Crc32c Driver
 
-abbrev S := Option St
+/-- driver state: the database (if open) and the crash point armed for the next reopen after a crash -/
+structure DS where
+  st : Option St := none
+  reArm : Option Arm := none
+
+abbrev S := DS
 
 def pairs : Nat → List String → Option (List (Bytes × Bytes) × List String)
   | 0, rest => some ([], rest)
@@ -22,10 +27,16 @@ def kvPairs : Nat → List String → Option (List (Bytes × Option Bytes) × Li
 
 def fmtCursor (s : St) : String := toString s.fs.curFile ++ " " ++ toString s.fs.curOff
 
-def afterCrash (s : St) : S × String :=
-  match reopen (crash s) with
-  | some s' => (some s', "crashed reopen ok " ++ fmtCursor s')
-  | none => (none, "crashed reopen err")
+/-- the process died: reopen (possibly dying again inside the reconciliation, then reopen again) -/
+def afterCrash (d : DS) (s : St) : S × String :=
+  let s1 := crash s
+  match reopenArmed { s1 with fs := { s1.fs with arm := d.reArm } } with
+  | none => ({}, "crashed reopen err")
+  | some (s2, false) => ({ st := some { s2 with fs := { s2.fs with arm := none } } }, "crashed reopen ok " ++ fmtCursor s2)
+  | some (s2, true) =>
+    match reopen (crash s2) with
+    | some s3 => ({ st := some s3 }, "crashed reopen-crashed reopen ok " ++ fmtCursor s3)
+    | none => ({}, "crashed reopen-crashed reopen err")
 
 def armOf (point skip torn : String) : Option Arm :=
   if point = "none" then none else some { point := point.replace "_" " ", skip := skip.toNat?.getD 0, torn := torn.toNat?.getD 0 }
@@ -38,41 +49,43 @@ def fmtFiles (fs : ElaVerif.BlockStore.Files) : String :=
   let l := go fs 0
   if l.isEmpty then "none" else ",".intercalate l
 
-def step (st : S) (toks : List String) : S × String :=
+def step (d : S) (toks : List String) : S × String :=
   match toks with
-  | ["reset"] => (none, "ok")
+  | ["reset"] => ({}, "ok")
   | ["open", net, max, cmax, mode, row] =>
     match net.toNat?, max.toNat?, cmax.toNat?, hexBytes? row with
     | some net, some max, some cmax, some row =>
-      (some { fs := { net := net, max := max },
-              db := { ldb := ElaVerif.Ffldb.initLdb row, maxSize := cmax, flushAlways := mode == "always" } }, "ok")
-    | _, _, _, _ => (st, "bad-op")
+      let s0 : St := { fs := { net := net, max := max },
+                       db := { ldb := ElaVerif.Ffldb.initLdb row, maxSize := cmax, flushAlways := mode == "always" } }
+      (({ st := some s0 } : DS), "ok")
+    | _, _, _, _ => (d, "bad-op")
   | _ =>
-  match st with
-  | none => (st, "no-db")
+  match d.st with
+  | none => (d, "no-db")
   | some s =>
   match toks with
+  | ["armreopen", point, skip] => ({ d with reArm := armOf point skip "0" }, "ok")
   | "tx" :: point :: skip :: torn :: nb :: rest =>
     match nb.toNat?.bind (fun n => pairs n rest) with
     | some (blocks, nk :: rest') =>
       match nk.toNat?.bind (fun n => kvPairs n rest') with
       | some (kvs, _) =>
         let (s', dead) := commit crc32c { s with fs := { s.fs with arm := armOf point skip torn } } blocks kvs
-        if dead then afterCrash s' else (some { s' with fs := { s'.fs with arm := none } }, "ok " ++ fmtCursor s')
-      | none => (st, "bad-op")
-    | _ => (st, "bad-op")
+        if dead then afterCrash d s' else ({ d with st := some { s' with fs := { s'.fs with arm := none } } }, "ok " ++ fmtCursor s')
+      | none => (d, "bad-op")
+    | _ => (d, "bad-op")
   | ["flush", point, skip] =>
     let (s', dead) := flush { s with fs := { s.fs with arm := armOf point skip "0" } }
-    if dead then afterCrash s' else (some { s' with fs := { s'.fs with arm := none } }, "ok")
-  | ["crash"] => afterCrash s
+    if dead then afterCrash d s' else ({ d with st := some { s' with fs := { s'.fs with arm := none } } }, "ok")
+  | ["crash"] => afterCrash d s
   | ["knob", cmax, mode] =>
     match cmax.toNat? with
-    | some m => (some { s with db := { s.db with maxSize := m, flushAlways := mode == "always" } }, "ok")
-    | none => (st, "bad-op")
+    | some m => ({ d with st := some { s with db := { s.db with maxSize := m, flushAlways := mode == "always" } } }, "ok")
+    | none => (d, "bad-op")
   | ["reopen"] =>
     match reopen s with
-    | some s' => (some s', "ok " ++ fmtCursor s')
-    | none => (none, "err")
+    | some s' => ({ d with st := some s' }, "ok " ++ fmtCursor s')
+    | none => ({}, "err")
   | "read" :: nh :: rest =>
     match nh.toNat? with
     | some n =>
@@ -80,16 +93,16 @@ def step (st : S) (toks : List String) : S × String :=
       let ks := (rest.drop (n + 1))
       let hp := hs.map fun h => match hexBytes? h with
         | some hb => (match fetch crc32c s hb with
-            | some d => h ++ "=" ++ toString d.length ++ ":" ++ toHex (d.take 4)
+            | some dd => h ++ "=" ++ toString dd.length ++ ":" ++ toHex (dd.take 4)
             | none => h ++ "=miss")
         | none => "bad"
       let kp := ks.map fun k => match hexBytes? k with
         | some kb => k ++ "=" ++ (match getMeta s kb with | some v => toHex v | none => "nil")
         | none => "bad"
-      (st, " ".intercalate (hp ++ kp))
-    | none => (st, "bad-op")
-  | ["files"] => (st, fmtFiles s.fs.files)
-  | ["stats"] => (st, toString s.db.ckeys.length ++ " " ++ toString s.db.cremoves.length)
-  | _ => (st, "bad-op")
+      (d, " ".intercalate (hp ++ kp))
+    | none => (d, "bad-op")
+  | ["files"] => (d, fmtFiles s.fs.files)
+  | ["stats"] => (d, toString s.db.ckeys.length ++ " " ++ toString s.db.cremoves.length)
+  | _ => (d, "bad-op")
 
-def main : IO Unit := Driver.run step none
+def main : IO Unit := Driver.run step {}
